@@ -202,7 +202,7 @@ def oracle_case(lines, outs):
                 if not any(asg.get(l[0]) == l[1] for l in c):
                     bad.append((i, f"{ln}: total assignment after successful propagation falsifies added clause {[S.show_lit(x) for x in c]}"))
                     return bad
-        # unit-propagation fixpoint (theorem C07_propagate_fixpoint, judged on the implementation's own dump): after a
+        # unit-propagation fixpoint (theorem C07_bcp_fixpoint, judged on the implementation's own dump): after a
         # successful propagation with an empty queue no stored clause - learnt ones included - is falsified or unit
         if res == "T" and dump.get("q", "0").strip() == "0" and t[0] in ("prop", "assume", "next", "bj"):
             for c in cls_now:
